@@ -162,6 +162,8 @@ class SimOps:
 
         if isinstance(c_caps, int):
             c_caps = [c_caps] * (len(circuit.lines)+3)
+        else:
+            c_caps = [int(cap) for cap in c_caps]  # plain ints: with a narrow numpy dtype the memory locations would wrap around
 
         if a_ctrl is None:
             a_ctrl = np.zeros((len(circuit.lines)+3, 3), dtype=np.int32)  # add 3 for zero, tmp, tmp2
